@@ -27,7 +27,7 @@ class _ParseSpec(Spec):
     ]
     per_path_timeout = 12.0
 
-    def job(self, params, budget=240.0):
+    def job(self, params, budget=150.0):
         p = dict(params)
         p["prop"] = self.prop
         return {"harness": "parse", "params": p, "per_path_timeout": self.per_path_timeout, "budget_s": budget}
